@@ -158,7 +158,8 @@ func checkC19(c *Ctx) {
 	}
 	offs := []int{0, 1, 0x4000, -1, 0xA000, 0xFFFE, 0xFFFF}
 	var cases []c19Case
-	names := []string{"", "A", "AB", "ABCDE", "ABCDEF", "ABCDEFG", "ABCDEFGHIJKL", "a b", "x.cim"}
+	// names are byte strings: the six-byte field is filled byte-wise (multi-byte UTF-8 and invalid UTF-8 included)
+	names := []string{"", "A", "AB", "ABCDE", "ABCDEF", "ABCDEFG", "ABCDEFGHIJKL", "a b", "x.cim", "\u00e9", "abcd\u00e9", "abcde\u00e9", "\u30c6\u30b9\u30c8", "ab\xffcd", "%s%d", "-x"}
 	for _, tool := range []string{"cim2bin", "cim2cas"} {
 		for _, off := range offs {
 			o := off
